@@ -57,8 +57,14 @@ theorem root_holds (u : NoisePoint) (hE : rootsHold M σ R u = true) (j : Item) 
   rw [List.all_eq_true] at hE
   simpa using hE j hj
 
-/-- **consistency**: at a noise point where the roots hold, two members with the same vertex take the same value -/
-theorem consistent (h : CondSem M σ I R Rc range) (u : NoisePoint) (hE : rootsHold M σ R u = true) :
+theorem rootsHold_sub (u : NoisePoint) (R R' : List Item) (hsub : ∀ j ∈ R', j ∈ R) (hE : rootsHold M σ R u = true) :
+    rootsHold M σ R' u = true := by
+  unfold rootsHold at hE ⊢
+  rw [List.all_eq_true] at hE ⊢
+  exact fun j hj => hE j (hsub j hj)
+
+/-- **consistency**: at a noise point where the CONDITIONS hold, two members with the same vertex take the same value -/
+theorem consistent (h : CondSem M σ I R Rc range) (u : NoisePoint) (hE : rootsHold M σ Rc u = true) :
     ∀ i ∈ I, ∀ j ∈ I, i.1 = j.1 → solve M u i.2 i.1 = solve M u j.2 j.1 := by
   have key : ∀ (m : Nat) (l₁ : List Name) (n : Name) (l₂ : List Name), M.order = l₁ ++ n :: l₂ → l₁.length = m →
       ∀ i ∈ I, ∀ j ∈ I, i.1 = n → j.1 = n → solve M u i.2 n = solve M u j.2 n := by
@@ -98,8 +104,8 @@ theorem consistent (h : CondSem M σ I R Rc range) (u : NoisePoint) (hE : rootsH
           rcases h.parents i hi p hpi hfi with ⟨k, hk, hkp, hki⟩ | hmi
           · rcases h.parents j hj p hpj hfj with ⟨k', hk', hkp', hkj⟩ | hmj
             · rw [hki u, hkj u]
-              have e1 := root_holds u hE k (h.cond k hk)
-              have e2 := root_holds u hE k' (h.cond k' hk')
+              have e1 := root_holds u hE k hk
+              have e2 := root_holds u hE k' hk'
               rw [hkp] at e1
               rw [hkp'] at e2
               rw [e1, e2]
@@ -211,7 +217,8 @@ theorem local_iff (h : CondSem M σ I R Rc range) (u : NoisePoint) (τ : Y0.Val)
           by_contra hne
           exact hir ((h.range_iff i.1).2 ⟨⟨i, hi, rfl⟩, hne⟩)
         obtain ⟨j, hj, hji⟩ := this
-        rw [h.consistent u hE i hi j (h.root j hj) hji.symm, root_holds u hE j hj, hji, hτ i.1 hir]
+        rw [h.consistent u (rootsHold_sub u R Rc h.cond hE) i hi j (h.root j hj) hji.symm, root_holds u hE j hj, hji,
+          hτ i.1 hir]
     simpa using h.local_of_values u τ hτ hval i hi
 
 end CondSem
@@ -279,7 +286,7 @@ theorem prob_roots (h : CondSem M σ I R Rc range) (card : Name → Nat) (hcard 
     refine ⟨hE, fun i hi hir => ?_⟩
     obtain ⟨k, hk⟩ := forced_of_mem_keys r i.1 (by rw [hr]; exact hir)
     have hx := ha i.1 k hk
-    have hc := h.consistent u hE i hi (i.1, worldAt I i.1) (hitem i.1 hir) rfl
+    have hc := h.consistent u (rootsHold_sub u R Rc h.cond hE) i hi (i.1, worldAt I i.1) (hitem i.1 hir) rfl
     rw [hc]
     show solve M u (worldAt I i.1) i.1 = overrideVal σ r i.1
     unfold overrideVal
